@@ -7,7 +7,7 @@ import re
 
 from ..core import Checker, Rule, attr_calls, callee_is, calls_in, kwarg, resolved_calls, short
 from ..interp import Pins, find_nodes, unparse
-from .util import enclosing_loop, enclosing_stmt, every_iteration_reaches, fmt, is_const, parent, returns_of, single_def
+from .util import enclosing_loop, enclosing_stmt, every_iteration_reaches, fmt, is_const, parent, returns_of, same, single_def
 
 P = ("C16", "C01", "C06", "C04")
 CLS = "projection:ProjectionTranslator"
@@ -16,6 +16,10 @@ CLS = "projection:ProjectionTranslator"
 def _var_collection(ck: Checker, func, name: str, source: str) -> tuple[bool, str]:  # type: ignore[no-untyped-def]
     """`name` = all variables occurring in the literals of `source`, minus `_` (set built by update(collect_ast(x,'Variable')))"""
     init = single_def(func, name)
+    if init is not None and isinstance(init, ast.SetComp):
+        # an accumulating loop (or the comprehension itself) folded into its canonical form
+        ok = same(unparse(init), f"{{v for r in {source} for v in collect_ast(r, 'Variable')}}")
+        return ok, f"{name} = {unparse(init)}"
     if init is None or unparse(init) != "set()":
         return False, f"{name} = {unparse(init) if init is not None else '<several definitions>'}"
     ups = [c for c in attr_calls(func, "update") if unparse(c.func.value) == name]  # type: ignore[attr-defined]
@@ -58,7 +62,7 @@ def r_good_split(ck: Checker) -> None:
     ck.add("B2 compares with the globals of the unsplit body", go is not None and unparse(go) == f"global_vars_inside_body({stm}.body)", func, func.node, f"global_old = `{unparse(go) if go is not None else None}`", "")
     for nm, src in (("new_aggs", new), ("rest_aggs", rest)):
         d = single_def(func, nm)
-        ok = d is not None and unparse(d).replace(" ", "") == f"any(map(lambdax:len(collect_ast(x,'BodyAggregate'))>0,{src}))"
+        ok = d is not None and same(unparse(d), f"any(map(lambda x: len(collect_ast(x, 'BodyAggregate')) > 0, {src}))")
         ck.add(f"B6 {nm} detects body aggregates", ok, func, func.node, f"{nm} = `{unparse(d) if d is not None else None}`", "")
     aux = ck.prg.funcs.get(func.qualname + ".<locals>.aux")
     if aux is not None:
